@@ -362,6 +362,11 @@ OnJoined(mon, ev) ==
            \cup B(r.k = "panic" /\ ~deadlock /\ r.msg # "scripted", "C05", "unexpected panic payload")
            \cup B(mon.strict /\ A.killOld /\ r.k # "panic" /\ A.startOut = "ok" /\ ~A.runErr /\ ~r.killed,
                   "C06", "kill() had returned but the result says killed=false")
+           \* C05 "killed=true exactly when a kill signal ended the actor": a kill() that had returned before the burst
+           \* in which a running actor began to stop is the signal that ends it (the terminate branch has priority)
+           \cup B(mon.strict /\ A.killOld /\ r.k # "panic" /\ A.startOut = "ok" /\ ~A.runErr /\ ~r.killed,
+                  "C05", "a kill signal ended the actor but the result says killed=false")
+           \cup B(r.k # "panic" /\ r.killed /\ ~A.killStarted, "C05", "result says killed=true although kill() was never called")
            \cup B(deadlock /\ ~mon.dd, "C15", "deadlock panic with detection disabled")
            \cup B(deadlock /\ ~cycOk, "C15", "deadlock panic without a cycle of unanswered in-flight asks")
       m1 == UpdA(mon, a, [joined |-> TRUE, joinedNow |-> mon.now, res |-> r.k, runOpen |-> FALSE, expectRun |-> FALSE,
